@@ -2,6 +2,7 @@ package main
 
 import (
 	"fmt"
+	"sort"
 	"strings"
 
 	"verifharness/hx"
@@ -44,7 +45,11 @@ func (g *gen) do(op string) []out {
 		switch o.Kind {
 		case "B":
 			c := core{o.A[0], p, o.A[1], o.A[2], o.A[3], o.A[4]}
-			w := wire{C: c, Just: o.Cores}
+			// the attachment order chosen by the sender depends on Go's map iteration; any order is a
+			// legal wire message, the canonical (sorted) one keeps generation reproducible
+			js := append([]core(nil), o.Cores...)
+			sort.Slice(js, func(i, j int) bool { return coreLess(js[i], js[j]) })
+			w := wire{C: c, Just: js}
 			g.hWires = append(g.hWires, w)
 			g.hCores[c] = true
 			for _, j := range o.Cores {
@@ -452,7 +457,10 @@ func (g *gen) syncEpisode(cl **cluster) {
 	// fault plan: silent from the start, or crash after emitting k broadcasts with the last one
 	// reaching only a subset of recipients
 	crashAfter := map[int64]int{}
-	for p := range faulty {
+	for _, p := range g.honest {
+		if !faulty[p] {
+			continue
+		}
 		if g.rng.Chance(1, 3) {
 			crashAfter[p] = 0 // never starts
 		} else {
@@ -493,8 +501,8 @@ func (g *gen) syncEpisode(cl **cluster) {
 					g.do(fmt.Sprintf("recv %d ok %s", p, w.String()))
 					progress = true
 					// crash bookkeeping: after a faulty member has emitted its quota it stops
-					for fp := range faulty {
-						if !crashed[fp] && started[fp] {
+					for _, fp := range g.honest {
+						if faulty[fp] && !crashed[fp] && started[fp] {
 							cnt := 0
 							for _, hw := range g.hWires {
 								if hw.C.Src == fp {
